@@ -49,13 +49,24 @@ def run_entry(entry, lo, hi, w):
         return ("err", err_kind(e))
 
 
-def run_roundtrip(left, right):
+def run_roundtrip(left, right, rep="float"):
     *_, Staircase, Params = _api()
     try:
-        P = Staircase(left=np.array(left, dtype=float), right=np.array(right, dtype=float))
+        if rep == "int":          # integer-dtype bounds
+            P = Staircase(left=np.array([int(x) for x in left]), right=np.array([int(x) for x in right]))
+        elif rep == "list":
+            P = Staircase(left=list(left), right=list(right))
+        else:
+            P = Staircase(left=np.array(left, dtype=float), right=np.array(right, dtype=float))
+        snap = ([float(x) for x in P.left], [float(x) for x in P.right])
         if not (np.array_equal(P.left, np.array(left)) and np.array_equal(P.right, np.array(right))):
             return ("err", "Other")           # constructor altered the bounds: not a round-trip input
         R = P.to_dss().to_pbox()
+        R2 = P.to_dss().to_pbox()                     # a second conversion of the same object
+        if ([float(x) for x in P.left], [float(x) for x in P.right]) != snap:
+            return ("err", "Mutated")
+        if not (np.array_equal(R.left, R2.left) and np.array_equal(R.right, R2.right)):
+            return ("err", "SecondDiffers")
         return ("ok", [float(x) for x in R.left], [float(x) for x in R.right])
     except BaseException as e:  # noqa
         return ("err", err_kind(e))
@@ -334,8 +345,16 @@ def gen_roundtrip(ctx, stack_results):
     out = []
     n = 200
     for _ in range(ctx.scale(60, 1500)):
-        kind = rng.choice(["steps", "continuous", "degenerate", "constant", "touching"])
-        if kind == "steps":
+        kind = rng.choice(["steps", "continuous", "degenerate", "constant", "touching", "thin", "extreme", "steps"])
+        if kind == "thin":
+            base, eps = rng.uniform(1, 50), 10 ** rng.uniform(-9, -5)
+            left = list(np.maximum.accumulate([base * (1 + i * eps * rng.choice([0.0, 1.0])) for i in range(n)]))
+            right = list(np.maximum.accumulate([x * (1 + eps) for x in left]))
+        elif kind == "extreme":
+            sc = rng.choice([1e18, 2.0 ** 70, 1e-20, 1.380649e-23])
+            left = sorted(sc * rng.randint(-30, 30) for _ in range(n))
+            right = list(np.maximum.accumulate([x + sc * rng.choice([0, 0, 3]) for x in left]))
+        elif kind == "steps":
             k = rng.randint(1, 12)
             lv = sorted(rng.randint(-20, 20) for _ in range(k))
             cut = sorted(rng.randrange(1, n) for _ in range(k - 1))
@@ -359,7 +378,9 @@ def gen_roundtrip(ctx, stack_results):
             left = sorted(float(rng.randint(-5, 5)) for _ in range(n))
             right = [x + (0.0 if rng.random() < 0.5 else 1.0) for x in left]
             right = list(np.maximum.accumulate(right))
-        out.append({"stream": "roundtrip-" + kind, "left": [float(x) for x in left], "right": [float(x) for x in right]})
+        ints = all(float(x).is_integer() and abs(x) < 2 ** 40 for x in list(left) + list(right))
+        out.append({"stream": "roundtrip-" + kind, "left": [float(x) for x in left], "right": [float(x) for x in right],
+                    "rep": rng.choice(["int", "list", "float"]) if ints else rng.choice(["float", "list"])})
     for l, r in stack_results[: ctx.scale(60, 1500)]:
         out.append({"stream": "roundtrip-stacked", "left": l, "right": r})
     return out
@@ -377,10 +398,11 @@ def canon_op(o):
         return (type(o).__name__, [canon_op(x) for x in o])
     if isinstance(o, dict):
         return ("d", sorted((k, canon_op(v)) for k, v in o.items()))
-    if hasattr(o, "lo") and hasattr(o, "hi"):
-        return ("I", canon_op(np.asarray(o.lo)), canon_op(np.asarray(o.hi)))
-    if hasattr(o, "_intervals") and hasattr(o, "_masses"):
-        return ("DS", canon_op(o._intervals), canon_op(np.asarray(o._masses)))
+    d = getattr(o, "__dict__", {})
+    if "_intervals" in d and "_masses" in d:
+        return ("DS", canon_op(d["_intervals"]), canon_op(np.asarray(d["_masses"])))
+    if "_lo" in d and "_hi" in d:
+        return ("I", canon_op(np.asarray(d["_lo"])), canon_op(np.asarray(d["_hi"])))
     return ("o", repr(type(o)))
 
 
@@ -587,7 +609,11 @@ def run_repr_stream(ctx, G, Gf):
                              f"sequence of conversions with the same focal elements and different masses: {label} gives {sd}[{i}] = "
                              f"{(impl[1] if sd == 'left' else impl[2])[i]}, expected {(el if sd == 'left' else er)[i]}")
                 alive.append((label, obj, (impl[1], impl[2])))
-            if canon_op(d1) != canon_op(DS(iv, list(w))) or canon_op(ivI) != canon_op([I(a, b) for a, b in zip(lo, hi)]):
+            try:
+                altered = canon_op(d1) != canon_op(DS(iv, list(w))) or canon_op(ivI) != canon_op([I(a, b) for a, b in zip(lo, hi)])
+            except BaseException as e:  # noqa
+                altered = True
+            if altered:
                 ctx.fail({"call": "sequence", "symptom": "operand-mutated", "stream": "sequence"}, cj, "a DS structure / Interval operand was altered by converting it")
         # --- the very first call of the previous case again, after all these unrelated calls
         if prev is not None:
@@ -621,8 +647,14 @@ def run(ctx: core.Check):
                 "equal/dyadic masses; structures whose cumulated masses hit grid levels exactly (exact binary64 sums); random "
                 "doubles with 2..50 focal elements and equal/random/dyadic masses; every base case is accompanied by a "
                 "permutation and a splitting; round trips of step / continuous / degenerate / constant / stacked p-boxes; "
-                "malformed inputs. Each case runs 4 entry points. Non-trivial = at least two distinct focal intervals; "
-                "distinctness on (lo, hi, masses).")
+                "malformed inputs. Each case runs 4 entry points. Representation stream: structures with unequal masses (integer, "
+                "thin 1e-9..1e-5, tiny 1e-9..1e-23, extreme 1e15..1e18 endpoints, extreme focal elements with mass below the first "
+                "grid level, grid hits) x 22 ways of passing them (stacking / pba.stacking / stochastic_mixture / DempsterShafer / "
+                "from_dsElements with lists, tuples, Interval objects, mixed with a list before an Interval, 2-D arrays incl. "
+                "int dtype, vector Interval; weights as list / tuple / array; keywords); operands checked unchanged; the same focal "
+                "elements with rotated masses converted one after the other (objects kept); results kept alive and re-read; "
+                "calls evaluated twice; round trips also from int-dtype / list bounds and converted twice. "
+                "Non-trivial = at least two distinct focal intervals; distinctness on (lo, hi, masses).")
     ctx.assumptions = ["binary64 cumsum of the masses is not modelled; by Props.C08.stacking_same_cmp it can matter only through the "
                        "comparisons 'level <= running sum': the harness evaluates that hypothesis exactly on every case (binary64 "
                        "running sums from the same numpy calls, as exact rationals) and demands equality whenever it holds; only the "
@@ -735,7 +767,8 @@ def run(ctx: core.Check):
     rreps = model_batch_par("C08", [f"rt {ql(c['left'])} {ql(c['right'])}" for c in rts])
     for c, rep in zip(rts, rreps):
         ctx.count(("rt", tuple(c["left"]), tuple(c["right"])), c["left"][0] != c["left"][-1] or c["right"][0] != c["right"][-1], c["stream"])
-        impl = run_roundtrip(c["left"], c["right"])
+        impl = run_roundtrip(c["left"], c["right"], c.get("rep", "float"))
+        ctx.bump("roundtrip-built-from:" + c.get("rep", "float"))
         model = parse_model(rep)
         ok = impl[0] == model[0] and (impl[1] == model[1] if impl[0] == "err" else not diff_idx(impl, (model[1], model[2])))
         cj = {"stream": c["stream"], "left": c["left"], "right": c["right"]}
